@@ -32,6 +32,11 @@ pub struct Authz {
     pub reviews: BTreeMap<Oid, (ObjectId, PublicKey, Oid)>,
     /// redactions written (honest and byzantine): target id -> writers
     pub redacts: BTreeMap<Oid, BTreeSet<usize>>,
+    /// label sets written by delegates, per object (a label action replaces the whole set, so the
+    /// labels of an object are always exactly one of these, or empty)
+    pub label_sets: BTreeMap<ObjectId, BTreeSet<BTreeSet<String>>>,
+    /// assignee sets written by delegates, per object
+    pub assign_sets: BTreeMap<ObjectId, BTreeSet<BTreeSet<String>>>,
 }
 
 pub fn writer_of(s: &str, prefix: char) -> Option<usize> {
@@ -49,6 +54,18 @@ impl<'a> World<'a> {
     pub fn tag_label(&mut self, r: usize) -> Label {
         self.authz.n += 1;
         Label::new(format!("l{r}-{}", self.authz.n)).expect("label")
+    }
+
+    pub fn note_labels<'l>(&mut self, r: usize, id: &ObjectId, labels: impl IntoIterator<Item = &'l Label>) {
+        if self.reps[r].delegate {
+            self.authz.label_sets.entry(*id).or_default().insert(labels.into_iter().map(|l| l.name().to_string()).collect());
+        }
+    }
+
+    pub fn note_assignees<'l>(&mut self, r: usize, id: &ObjectId, dids: impl IntoIterator<Item = &'l Did>) {
+        if self.reps[r].delegate {
+            self.authz.assign_sets.entry(*id).or_default().insert(dids.into_iter().map(|d| d.to_string()).collect());
+        }
     }
 
     pub fn ghost(&self, r: usize) -> Did {
@@ -75,7 +92,7 @@ impl<'a> World<'a> {
         let nid = self.reps[r].nid;
         let delegate = self.reps[r].delegate;
         let Ok(identity) = repo.identity_head() else { return };
-        let kind: &str;
+        let mut kind: &str;
         let type_name;
         let mut redacting: Option<Oid> = None;
         let mut owner: Option<PublicKey> = None; // whose permission (besides a delegate's) would do
@@ -113,14 +130,29 @@ impl<'a> World<'a> {
                     kind = "label";
                     delegate_only = true;
                     let mut labels: BTreeSet<Label> = iss.labels().cloned().collect();
-                    labels.insert(self.tag_label(r));
+                    if self.ch.pick(3) == 0 && !labels.is_empty() {
+                        // or: drop one of the current labels
+                        kind = "label-removal";
+                        let first = labels.iter().next().cloned().unwrap();
+                        labels.remove(&first);
+                    } else {
+                        labels.insert(self.tag_label(r));
+                    }
+                    self.note_labels(r, &id, labels.iter());
                     issue::Action::Label { labels }
                 }
                 3 => {
                     kind = "assign";
                     delegate_only = true;
                     let mut assignees: BTreeSet<Did> = iss.assignees().cloned().collect();
-                    assignees.insert(if delegate { Did::from(self.reps[self.ch.pick_usize(self.reps.len())].nid) } else { self.ghost(r) });
+                    if self.ch.pick(3) == 0 && !assignees.is_empty() {
+                        kind = "assignee-removal";
+                        let first = assignees.iter().next().cloned().unwrap();
+                        assignees.remove(&first);
+                    } else {
+                        assignees.insert(if delegate { Did::from(self.reps[self.ch.pick_usize(self.reps.len())].nid) } else { self.ghost(r) });
+                    }
+                    self.note_assignees(r, &id, assignees.iter());
                     issue::Action::Assign { assignees }
                 }
                 4 => {
@@ -186,14 +218,28 @@ impl<'a> World<'a> {
                     kind = "label";
                     delegate_only = true;
                     let mut labels: BTreeSet<Label> = p.labels().cloned().collect();
-                    labels.insert(self.tag_label(r));
+                    if self.ch.pick(3) == 0 && !labels.is_empty() {
+                        kind = "label-removal";
+                        let first = labels.iter().next().cloned().unwrap();
+                        labels.remove(&first);
+                    } else {
+                        labels.insert(self.tag_label(r));
+                    }
+                    self.note_labels(r, &id, labels.iter());
                     patch::Action::Label { labels }
                 }
                 3 => {
                     kind = "assign";
                     delegate_only = true;
                     let mut assignees: BTreeSet<Did> = p.assignees().collect();
-                    assignees.insert(if delegate { Did::from(self.reps[self.ch.pick_usize(self.reps.len())].nid) } else { self.ghost(r) });
+                    if self.ch.pick(3) == 0 && !assignees.is_empty() {
+                        kind = "assignee-removal";
+                        let first = assignees.iter().next().cloned().unwrap();
+                        assignees.remove(&first);
+                    } else {
+                        assignees.insert(if delegate { Did::from(self.reps[self.ch.pick_usize(self.reps.len())].nid) } else { self.ghost(r) });
+                    }
+                    self.note_assignees(r, &id, assignees.iter());
                     patch::Action::Assign { assignees }
                 }
                 4 => {
@@ -314,6 +360,15 @@ impl<'a> World<'a> {
                     }
                 }
             }
+            // the label set and the assignee set as a whole are ones a delegate wrote (or empty)
+            let lset: BTreeSet<String> = iss.labels().map(|l| l.name().to_string()).collect();
+            if !lset.is_empty() && !self.authz.label_sets.get(&id).map(|s| s.contains(&lset)).unwrap_or(false) {
+                self.res.violate(&own, "C07", "C07/issue/label-set-not-written-by-a-delegate", format!("{name}: {on} carries the labels {lset:?}, which no delegate wrote as a set (delegates wrote {:?})", self.authz.label_sets.get(&id)));
+            }
+            let aset: BTreeSet<String> = iss.assignees().map(|d| d.to_string()).collect();
+            if !aset.is_empty() && !self.authz.assign_sets.get(&id).map(|s| s.contains(&aset)).unwrap_or(false) {
+                self.res.violate(&own, "C07", "C07/issue/assignee-set-not-written-by-a-delegate", format!("{name}: {on} is assigned to {} key(s), a set no delegate wrote", aset.len()));
+            }
             // assignees
             for a in iss.assignees() {
                 if ghosts.contains(a) {
@@ -381,6 +436,14 @@ impl<'a> World<'a> {
                         self.res.violate(&own, "C07", "C07/patch/label-written-by-non-delegate", format!("{name}: {on} carries label {} written by {} who is not a delegate", l.name(), self.reps[w].name));
                     }
                 }
+            }
+            let lset: BTreeSet<String> = p.labels().map(|l| l.name().to_string()).collect();
+            if !lset.is_empty() && !self.authz.label_sets.get(&id).map(|s| s.contains(&lset)).unwrap_or(false) {
+                self.res.violate(&own, "C07", "C07/patch/label-set-not-written-by-a-delegate", format!("{name}: {on} carries the labels {lset:?}, which no delegate wrote as a set (delegates wrote {:?})", self.authz.label_sets.get(&id)));
+            }
+            let aset: BTreeSet<String> = p.assignees().map(|d| d.to_string()).collect();
+            if !aset.is_empty() && !self.authz.assign_sets.get(&id).map(|s| s.contains(&aset)).unwrap_or(false) {
+                self.res.violate(&own, "C07", "C07/patch/assignee-set-not-written-by-a-delegate", format!("{name}: {on} is assigned to {} key(s), a set no delegate wrote", aset.len()));
             }
             for a in p.assignees() {
                 if ghosts.contains(&a) {
